@@ -145,9 +145,18 @@ func (c *caseCtx) runBoth(tree *gen.Expr, expr string, doc interface{}) (ref.Res
 	res := ref.RefSet(tree, doc, gen.Quirks{})
 	o1 := apiSearch(expr, mon.DeepCopy(doc))
 	ok := c.judge(tree, expr, doc, "Search", o1, res)
-	o2 := apiCompiledSearch(expr, mon.DeepCopy(doc))
+	// the compiled path answers twice (fresh deep copies): a cache or leftover state on the compiled
+	// expression shows in the second answer
+	jp, co := apiCompile(expr)
+	if co.Panicked || co.Err != nil {
+		ok2 := c.judge(tree, expr, doc, "Compile+Search", co, res)
+		return res, o1, ok && ok2
+	}
+	o2 := apiJP(jp, mon.DeepCopy(doc))
 	ok2 := c.judge(tree, expr, doc, "Compile+Search", o2, res)
-	return res, o1, ok && ok2
+	o3 := apiJP(jp, mon.DeepCopy(doc))
+	ok3 := c.judge(tree, expr, doc, "Compile+Search (second call on the same compiled expression)", o3, res)
+	return res, o1, ok && ok2 && ok3
 }
 
 // runOne uses the one-shot API only (for the very large enumerations, where
